@@ -453,3 +453,6 @@ def run(F, rep, tier):
     c06_codec.run(F, rep, core)
     from rules import c06_result
     c06_result.run(F, rep)
+    from rules.loopshape import no_unconditional_self_recursion
+    no_unconditional_self_recursion(F, rep, "C06-R13", sorted(set(X.FXN_CRATES) | {"mech_core.lib", "mech_interpreter.lib"}), floor=5000)
+    c06_codec.compile_errors_propagate(F, rep, core)
